@@ -1,6 +1,6 @@
 (* C13 — mdspan size / empty / extent / rank observers agree with its extents and mapping. *)
 From Coq Require Import ZArith List.
-From MdspanVerif Require Import MachInt ListAux Layouts LayoutSpec LayoutProofs LayoutTheorems FlagProofs View.
+From MdspanVerif Require Import MachInt ListAux Layouts LayoutSpec LayoutProofs LayoutTheorems FlagProofs View DriverFacts.
 Import ListNotations.
 Local Open Scope Z_scope.
 
@@ -28,6 +28,13 @@ Print Assumptions C13_size_rank0.
 Theorem C13_empty_iff : forall (es : list Z), empty_impl es = true <-> (exists e, In e es /\ e = 0).
 Proof. exact empty_iff_thm. Qed.
 Print Assumptions C13_empty_iff.
+
+(* ... and this is NOT the same as size() == 0: over a layout that is not unique the extents need not fit any
+   span, and a product of non-zero extents that is a multiple of 2^bits(size_type) wraps to 0 *)
+Theorem C13_empty_is_not_size_zero_refuted :
+  exists (t : ity) (es : list Z), Forall (fun e => 0 < e <= imax t) es /\ size_impl t es = 0 /\ empty_impl es = false.
+Proof. exact empty_is_not_size_zero_refuted. Qed.
+Print Assumptions C13_empty_is_not_size_zero_refuted.
 
 Theorem C13_empty_rank0 : empty_impl [] = false.
 Proof. exact empty_rank0_thm. Qed.
